@@ -1,5 +1,5 @@
 """Rule registry: rule id -> function(Program) -> RuleResult; positive controls on /verif/fixtures."""
-from . import order, effects, proto
+from . import order, effects, proto, deadline, guard, coord
 
 RULES = {
     "G1": order.rule_G1,
@@ -13,6 +13,14 @@ RULES = {
     "B3": proto.rule_B3,
     "B4": proto.rule_B4,
     "B5": proto.rule_B5,
+    "E1": guard.rule_E1,
+    "A1": coord.rule_A1, "A2": coord.rule_A2, "A3": coord.rule_A3, "A4": coord.rule_A4,
+    "A5": coord.rule_A5, "A6": coord.rule_A6, "A7": coord.rule_A7,
+    "C1": deadline.rule_C1,
+    "C2": deadline.rule_C2,
+    "C3": deadline.rule_C3,
+    "C4": deadline.rule_C4,
+    "C5": deadline.rule_C5,
 }
 
 CONTROLS = []
